@@ -781,3 +781,27 @@ Qed.
 
 Example ex_sorted_default : sorted_px px_default.
 Proof. constructor. Qed.
+
+(* binds referenced elsewhere (other backends, host paths: `used0`) survive the processing
+   of a backend or of a host, clean up included *)
+Lemma backend_keeps_referenced : forall lua fe used0 px ds px' cfgs b, sorted_px px ->
+  process_backend lua fe used0 px ds = (px', cfgs) ->
+  In b (px_binds px) -> In (b_port b) used0 -> In b (px_binds px').
+Proof.
+  intros lua fe used0 px ds px' cfgs b Hs. unfold process_backend.
+  destruct (auth_external_loop lua fe used0 px [] ds) as [px1 l] eqn:E.
+  intros [= <- <-] Hb Hu.
+  destruct (auth_external_loop_sound _ _ _ _ _ _ _ _ Hs E) as (_ & Hk & _).
+  apply Hk; [assumption|]. apply in_or_app. now left.
+Qed.
+
+Lemma host_keeps_referenced : forall lua used0 px hplace hurl keys px' hcfgs b, sorted_px px ->
+  process_host lua used0 px hplace hurl keys = (px', hcfgs) ->
+  In b (px_binds px) -> In (b_port b) used0 -> In b (px_binds px').
+Proof.
+  intros lua used0 px hplace hurl keys px' hcfgs b Hs. unfold process_host.
+  destruct hplace; try (intros [= <- <-]; auto).
+  destruct hurl as [[u tag]|]; [|intros [= <- <-]; auto].
+  intros H Hb Hu. destruct (host_loop_sound _ _ _ _ _ _ _ _ _ Hs H) as (_ & Hk & _).
+  apply Hk; [assumption|]. apply in_or_app. now left.
+Qed.
